@@ -166,11 +166,19 @@ var _ = common.Header{}
 
 // anyMessage: controller-side (library recipe) or switch-side (library types)
 func (g *G) anyMessage() (util.Message, string) {
+	m, k, _ := g.anyMessageR()
+	return m, k
+}
+
+// anyMessageR also returns the recipe of a controller-side message as a Gallina term
+// "(xid, recipe)" ("" for switch-side messages, which have no recipe model)
+func (g *G) anyMessageR() (util.Message, string, string) {
 	if g.r.Intn(2) == 0 {
-		m, _, k, _ := g.message(2)
-		return m, k
+		m, t, k, xid := g.message(2)
+		return m, k, fmt.Sprintf("%d %s", xid, t)
 	}
-	return g.switchMessage()
+	m, k := g.switchMessage()
+	return m, k, ""
 }
 
 func marshalSafe(m util.Message) (b []byte, ok bool) {
@@ -185,6 +193,7 @@ func marshalSafe(m util.Message) (b []byte, ok bool) {
 
 func runC05(seed uint64, tier, dir, replay string) error {
 	o := NewOut(dir, "C05", 16, "From LOF Require Import Corr.Dec.", "check05")
+	o.hyp = "thm_hyp05"
 	rng := NewRng(seed)
 	g := NewG(rng)
 	g.exact = true
@@ -195,7 +204,7 @@ func runC05(seed uint64, tier, dir, replay string) error {
 		n = 25000
 	}
 	for i := 0; i < n; i++ {
-		m, kind := g.anyMessage()
+		m, kind, recipe := g.anyMessageR()
 		b, ok := marshalSafe(m)
 		if !ok || len(b) > 65535 {
 			o.Add(fmt.Sprintf("(Par %s 9 %s 0 0 0)", packBytes(nil), packBytes(nil)), map[string]interface{}{"kind": "msg:" + kind, "encode_failed": true}, "msg:"+kind, "encode-failed")
@@ -211,7 +220,12 @@ func runC05(seed uint64, tier, dir, replay string) error {
 		if same == 0 && r.outcome == 0 {
 			js["fields_before"] = canonString(m)
 		}
-		o.Add(fmt.Sprintf("(Par %s %d %s %d 1 %d)", packBytes(b), r.outcome, packBytes(r.re), max0(r.lenv), same), js, "msg:"+kind, fmt.Sprintf("%d/%d", len(b)/64, r.outcome))
+		term := fmt.Sprintf("(Par %s %d %s %d 1 %d)", packBytes(b), r.outcome, packBytes(r.re), max0(r.lenv), same)
+		if recipe != "" { // the recipe rides along: the general theorem's hypothesis is evaluated on it
+			term = fmt.Sprintf("(ParM %s %s %d %s %d 1 %d)", recipe, packBytes(b), r.outcome, packBytes(r.re), max0(r.lenv), same)
+			js["recipe"] = recipe
+		}
+		o.Add(term, js, "msg:"+kind, fmt.Sprintf("%d/%d", len(b)/64, r.outcome))
 	}
 	o.Meta["rule"] = "random values of every kind Parse dispatches on (controller-side: API recipes of hello, echo, features/get-config/barrier requests, set-config, flow-mod with every action/instruction/match-field kind, group-mod, packet-out, port-mod, multipart requests, NXT and bundle messages incl. nesting; switch-side: flow-removed, packet-in with Ethernet payloads, port-status, features reply, error, experimenter error, get-config reply, multipart replies desc/aggregate/flow with instructions, tlv-table reply) encoded, parsed through the entry point, re-encoded; canonical field dump before/after; every nested element kind sits at random positions of mixed lists; distinct by kind x size bucket x outcome"
 	return o.Close()
